@@ -28,6 +28,8 @@ type Loader struct {
 	allFuncs  map[string]*ssa.Function
 	LoadMs    int64
 	Known     *knownSet
+	constGlob map[*ssa.Global]bool
+	scanned   map[*ssa.Package]bool
 }
 
 func Load(repoDir, specDir string, patterns []string) (*Loader, error) {
@@ -165,6 +167,60 @@ func (l *Loader) globalConst(g *ssa.Global) (Val, bool) {
 		return Sc{tTrue}, true // amd64 / arm64 (DESIGN 2.1)
 	}
 	return nil, false
+}
+
+// globalIsConst: no function other than a package initialiser stores to g
+// (package-level sentinel errors and tables).
+func (l *Loader) globalIsConst(g *ssa.Global) bool {
+	if l.constGlob == nil {
+		l.constGlob = map[*ssa.Global]bool{}
+		l.scanned = map[*ssa.Package]bool{}
+	}
+	if !l.scanned[g.Pkg] {
+		l.scanned[g.Pkg] = true
+		for _, m := range g.Pkg.Members {
+			if gg, ok := m.(*ssa.Global); ok {
+				l.constGlob[gg] = true
+			}
+		}
+		for _, fn := range l.allFuncs {
+			root := fn
+			for root.Parent() != nil {
+				root = root.Parent()
+			}
+			if fn.Pkg != g.Pkg && root.Pkg != g.Pkg {
+				continue
+			}
+			if root.Name() == "init" || strings.HasPrefix(root.Name(), "init#") {
+				continue
+			}
+			for _, b := range fn.Blocks {
+				for _, in := range b.Instrs {
+					if st, ok := in.(*ssa.Store); ok {
+						if gg := rootGlobal(st.Addr); gg != nil {
+							l.constGlob[gg] = false
+						}
+					}
+				}
+			}
+		}
+	}
+	return l.constGlob[g]
+}
+
+func rootGlobal(v ssa.Value) *ssa.Global {
+	for {
+		switch x := v.(type) {
+		case *ssa.Global:
+			return x
+		case *ssa.FieldAddr:
+			v = x.X
+		case *ssa.IndexAddr:
+			v = x.X
+		default:
+			return nil
+		}
+	}
 }
 
 func (l *Loader) globalByObj(o *types.Var) *ssa.Global {
